@@ -693,6 +693,17 @@ func Templates(fs string, core, removeAll bool) []Tmpl {
 		// that the entry is another node now, not only that there is an entry
 		Tmpl{{Op: "Remove", A: "/d/x"}, {Op: "OpenFile", A: "/d/x", Flag: ex, Perm: 0o644}},
 		Tmpl{{Op: "Remove", A: "/d/e/z"}, {Op: "Remove", A: "/d/e"}, {Op: "Mkdir", A: "/d/e", Perm: 0o755}},
+		// an EMPTY directory (/tmp) is removed while entries are made in it from elsewhere: each
+		// way of making an entry (create, link, move) has its own re-check of "the directory is still there"
+		one(fsx.Call{Op: "Remove", A: "/tmp"}),
+		one(fsx.Call{Op: "Link", A: "/d/x", B: "/tmp/l"}),
+		one(fsx.Call{Op: "Rename", A: "/f/g", B: "/tmp/g"}),
+		one(fsx.Call{Op: "Mkdir", A: "/tmp/y", Perm: 0o755}),
+		one(fsx.Call{Op: "OpenFile", A: "/tmp/y", Flag: ex, Perm: 0o644}),
+		// the same missing directory made by two threads, each putting its own file into it:
+		// the second creator must find the directory of the first, not make another one
+		Tmpl{{Op: "MkdirAll", A: "/d/y/y", Perm: 0o755}, {Op: "OpenFile", A: "/d/y/y/f", Flag: ex, Perm: 0o644}},
+		Tmpl{{Op: "MkdirAll", A: "/d/y/y", Perm: 0o755}, {Op: "OpenFile", A: "/d/y/y/g", Flag: ex, Perm: 0o644}},
 		one(fsx.Call{Op: "Chmod", A: "/d/x", Perm: 0o600}),
 		one(fsx.Call{Op: "Chmod", A: "/d/e", Perm: 0o700}),
 		one(fsx.Call{Op: "Stat", A: "/d/x"}),
